@@ -443,6 +443,23 @@ Example C20_canceled_run_stays_dispatched :
   = (None, true, true, (true, true, true, true), (true, true, true, true), [("a", Dispatched)], [("a", OCanceled)], 4%nat).
 Proof. vm_compute. reflexivity. Qed.
 
+(* ... and a run that ends BEFORE it starts: the worker has accepted the dispatch, the dispatch context is cancelled
+   before the work function is called, the worker reports the context error (LWorkEnd "a" OCanceled, no LWorkStart:
+   starts_of = []).  The strategy reaches rest in 7 labels (Step reports TaskDone(a, OCanceled) from its select, no
+   MarkAsDone; the next Step blocks); every hypothesis of C20_predicate_at_rest holds and c20_ok = true: the task
+   stays dispatched, covered by its OCanceled end *)
+Definition c20_canceled_before_start : list slabel := (firstn 15 cex_c06_prefix ++ [LWorkEnd "a" OCanceled])%list.
+Example C20_canceled_before_start_stays_dispatched :
+  c20_report c20_canceled_before_start true
+  = (None, true, true, (true, true, true, true), (true, true, true, true), [("a", Dispatched)], [("a", OCanceled)], 7%nat)
+  /\ postponed_in_window c20_canceled_before_start None [] = []
+  /\ starts_of c20_canceled_before_start = []
+  /\ match srun sys_init c20_canceled_before_start with Some s => fst (drive (mu s) s) | None => [] end
+     = [ LStepBegin; LCall CLtue FNone false (RBool false); LCall CTimerCh FNone false RUnit;
+         LStepEnd (STaskDone "a" OCanceled false) false;
+         LStepBegin; LCall CLtue FNone false (RBool false); LCall CTimerCh FNone false RUnit ].
+Proof. vm_compute. repeat split; reflexivity. Qed.
+
 (* the two retry hypotheses are needed (both traces are accepted, end at rest, and satisfy every other hypothesis):
    - SysProofs.cex_lost_task: same fault, the driver calls Step instead of Retry(DispatchErr) (trace_disciplined =
      false): the task is stranded in dispatched state, no run: the last clause of c20_ok fails (c03..c06 hold);
@@ -463,4 +480,5 @@ Print Assumptions C20_predicate_at_rest.
 Print Assumptions C20_liveness.
 Print Assumptions C20_recovery_after_fault.
 Print Assumptions C20_canceled_run_stays_dispatched.
+Print Assumptions C20_canceled_before_start_stays_dispatched.
 Print Assumptions C20_retry_hypotheses_needed.
